@@ -17,6 +17,18 @@ every consumer gives the same outcome and the same numbers on the pipeline's
 table and on the same data in a plain default-indexed table, and no stage
 touches its caller's table.
 
+Part (c), column dtypes.  Parts (a) and (b) only use float64 measurement columns
+(what locate / batch produce).  Here walkers on the integer pixel grid are stored
+with integer-typed position columns (int64 / int32 / mixed widths, one coordinate integer
+and the other float, integer size and mass), under several index layouts, and go
+through the same pipelines and consumers -- plus subtract_drift with an explicitly
+given non-integral drift table.  Every stage must treat the table exactly like its
+float64 twin (same values, same index, the integer measurement columns cast to
+float64): same accept / raise outcome, same numbers.  A stage that writes its
+(generally non-integral) result INTO an existing integer column, truncates, wraps
+or refuses it is reported.  Tables whose drift is integral in every frame (all
+walkers move rigidly) are generated and tallied as well.
+
 Route T.  tools/py2coq_filtering.py re-translates the CURRENT text of
 trackpy/filtering.py (filter_stubs, filter_clusters, filter, bust_ghosts,
 bust_clusters) and of pandas_sort / guess_pos_columns in trackpy/utils.py into
@@ -570,6 +582,14 @@ def stage(name):
         return lambda t: tp.filter_clusters(t, threshold=CUT)
     if name == 'subtract_drift':
         return lambda t: tp.subtract_drift(t)
+    if name == 'subtract_drift_given':
+        def given(t):
+            # an explicitly supplied drift table (index 'frame'), not integral in any frame
+            frames = sorted(set(int(v) for v in t['frame'].values))
+            d = pd.DataFrame({'y': [0.25 * f + 0.125 for f in frames], 'x': [0.375 - 0.5 * f for f in frames]},
+                             index=pd.Index(frames, name='frame'))
+            return tp.subtract_drift(t, d)
+        return given
     if name == 'compute_drift':
         return lambda t: tp.compute_drift(t)
     if name == 'msd':
@@ -776,6 +796,165 @@ def run_compose(chk):
 
 
 # =============================================================================
+# (c) column dtypes: integer-typed measurement columns against their float64 twin
+# =============================================================================
+DT_PRODUCERS = PRODUCERS + ['subtract_drift_given']
+DT_CONSUMERS = CONSUMERS + ['subtract_drift_given']
+MEASURED = ('x', 'y', 'size', 'mass')          # columns whose dtype is varied (frame / particle stay int64)
+DTYPE_VARIANTS = [
+    ('x,y int64', dict(x='int64', y='int64')),
+    ('x,y int32', dict(x='int32', y='int32')),
+    ('x int32, y int64', dict(x='int32', y='int64')),
+    ('x int64, y float64', dict(x='int64')),
+    ('x float64, y int32', dict(y='int32')),
+    ('x,y,size,mass int64', dict(x='int64', y='int64', size='int64', mass='int64')),
+    ('size,mass int32 (positions float64)', dict(size='int32', mass='int32')),
+]
+DT_LAYOUTS = ['default', 'default', 'shuffled_ints', 'frame_index', 'dup_ints', 'strings']   # accepted by every stage (part (b) owns the clashing ones)
+
+
+def lattice_table(rng, rigid):
+    """walkers on the integer pixel grid (all values integral, columns still float64): 20 px apart in x, steps dx in {0,1,2},
+    dy in {-1,0,1} per frame (displacement <= sqrt(5) < search_range 3, so linking is unambiguous); gapless, gapped, a stub, a big one.
+    rigid: all walkers take the same step between the same two frames, so the drift is integral in every frame;
+    otherwise steps are independent and the mean displacement per frame is generally not an integer"""
+    spec = [(0, 8, None, 2), (1, 6, None, 2), (0, 8, 3, 3), (2, 2, None, 2), (0, 8, None, 5), (3, 5, 5, 3)]
+    labels = rng.sample(range(0, 40), len(spec)) if rng.random() < 0.5 else list(range(len(spec)))
+    common_step = {f: (rng.choice([0, 1, 1, 2]), rng.choice([-1, 0, 1])) for f in range(0, 12)}
+    rows = []
+    for k, (start, n, gap, size) in enumerate(spec):
+        x = 10 + 20 * k + rng.randint(0, 3)
+        y = 12 + 6 * (k % 2) + rng.randint(0, 2)
+        for j in range(n):
+            f = start + j
+            if j > 0:
+                dx, dy = common_step[f] if rigid else (rng.choice([0, 1, 1, 2]), rng.choice([-1, 0, 1]))
+                x += dx; y += dy
+            if gap is not None and f == gap:
+                continue
+            rows.append(dict(y=float(y), x=float(x), mass=float(100 + k), size=float(size + (j % 2)), frame=f, particle=labels[k]))
+    if rng.random() < 0.5:
+        rng.shuffle(rows)
+    else:
+        rows.sort(key=lambda r: r['frame'])
+    df = pd.DataFrame(rows)
+    df['rid'] = np.arange(len(df))
+    return df
+
+
+def brief(e):
+    text = ' '.join(str(e).split())
+    return '%s: %s' % (type(e).__name__, text[:160] + ('...' if len(text) > 160 else ''))
+
+
+def float_twin(t):
+    """the same data under the same index, the integer-typed measurement columns as float64"""
+    return t.astype({c: 'float64' for c in MEASURED if c in t.columns and t[c].dtype.kind in 'iu'})
+
+
+def drift_is_integral(twin):
+    import trackpy as tp
+    d = tp.compute_drift(twin.reset_index(drop=True))
+    v = d.to_numpy(dtype=float)
+    return bool(np.all(v == np.round(v)))
+
+
+def dtype_explore(chk, tname, t0, pipes, consumers, meta):
+    """run the pipelines in lock-step on t0 and on its float64 twin, then every consumer on both results"""
+    twin0 = float_twin(t0)
+    tj = table_json(t0)
+    thash = hashlib.sha1(json.dumps(tj, sort_keys=True, default=str).encode()).hexdigest()[:12]
+    typed = any(t0[c].dtype.kind in 'iu' for c in MEASURED if c in t0.columns)
+    cache = {(): (t0, twin0)}
+
+    def compare(name, t, tw, rep, where):
+        """call stage `name` on both tables; returns (result, twin result) or None when the pipeline ends here"""
+        r, e, untouched = call(name, t)
+        rr, er, _ = call(name, tw)
+        if not untouched:
+            chk.violation('%s:caller-table-modified' % name, "%s modified the table it was given (integer-typed columns)" % name, rep)
+        if (e is None) != (er is None) or (e is not None and type(e) is not type(er)):
+            chk.violation('dtype:%s:outcome-differs-from-float64-table' % name,
+                          '%s on %s (column dtypes %s): %s; on the same data with float64 columns: %s'
+                          % (name, where, {c: str(t[c].dtype) for c in MEASURED if c in t.columns},
+                             'accepted' if e is None else brief(e), 'accepted' if er is None else brief(er)), rep)
+            return None
+        if e is not None:
+            # the lattice tables are well formed, never emptied by the filters, and DT_LAYOUTS are accepted by every stage
+            chk.violation('dtype:%s:raised-on-well-formed-table' % name,
+                          '%s on %s raised %s (and the same on the float64 twin); the table has all columns and an index that clashes with none'
+                          % (name, where, brief(e)), rep)
+            return None
+        d = same_numbers(name, r, rr)
+        if d:
+            chk.violation('dtype:%s:numbers-differ-from-float64-table' % name,
+                          '%s on %s (column dtypes %s) differs from the same data with float64 columns: %s'
+                          % (name, where, {c: str(t[c].dtype) for c in MEASURED if c in t.columns}, d), rep)
+            return None
+        if name in ('filter_stubs', 'filter_clusters'):
+            for sig, text in monitor_filter_output(name, t, snapshot(t), r):
+                chk.violation(sig, text + ' (integer-typed columns)', rep)
+        return r, rr
+
+    def result(pipe):
+        if pipe in cache:
+            return cache[pipe]
+        prev = result(pipe[:-1])
+        if prev is None:
+            cache[pipe] = None
+        else:
+            rep = dict(kind='dtype', table_name=tname, table=tj, pipeline=list(pipe), meta=meta)
+            cache[pipe] = compare(pipe[-1], prev[0], prev[1], rep, 'the table returned by %s' % ('->'.join(pipe[:-1]) or 'start'))
+        return cache[pipe]
+
+    for pipe in pipes:
+        got = result(pipe)
+        if got is None:
+            chk.tally('dtype: pipeline ended early')
+            continue
+        t, tw = got
+        chk.tally('dtype: measurement dtypes after pipeline ' + ','.join('%s:%s' % (c, t[c].dtype) for c in MEASURED if c in t.columns))
+        for c in consumers:
+            rep = dict(kind='dtype', table_name=tname, table=tj, pipeline=list(pipe), consumer=c, meta=meta)
+            chk.count(('dtype', thash, pipe, c), typed)
+            compare(c, t, tw, rep, 'the table returned by %s' % ('->'.join(pipe) or 'start'))
+
+
+def run_dtypes(chk):
+    rng = chk.rng
+    quick = chk.tier == 'quick'
+    variants = list(DTYPE_VARIANTS)
+    if quick:
+        variants = variants[:1] + rng.sample(variants[1:], 2)
+    jobs = [(v, False) for v in variants] + [(rng.choice(DTYPE_VARIANTS[:3]), True)]
+    first = True
+    for (vname, dts), rigid in jobs:
+        base = lattice_table(rng, rigid)
+        t0 = base.astype(dts)
+        lay = 'default' if first else rng.choice(DT_LAYOUTS)
+        t0 = relayout(t0, lay, rng)
+        integral = drift_is_integral(float_twin(t0))
+        chk.tally('dtype variant ' + vname)
+        chk.tally('dtype start layout ' + lay)
+        chk.tally('dtype: drift integral in every frame' if integral else 'dtype: drift not integral in some frame')
+        pipes = [()] + [(p,) for p in DT_PRODUCERS]
+        if quick:
+            extra = {('link', 'subtract_drift')} if first else set()
+            while len(extra) < 3:
+                extra.add(tuple(rng.choice(DT_PRODUCERS) for _ in range(2)))
+            pipes += sorted(extra)
+        else:
+            pipes += list(itertools.product(DT_PRODUCERS, repeat=2))
+            pipes += [tuple(rng.choice(DT_PRODUCERS) for _ in range(3)) for _ in range(10)]
+        meta = dict(variant=vname, layout=lay, rigid=rigid, drift_integral=integral)
+        dtype_explore(chk, 'lattice:' + vname + (':rigid' if rigid else ''), t0, list(dict.fromkeys(pipes)), DT_CONSUMERS, meta)
+        if first:
+            chk.sample(dict(kind='dtype', variant=vname, layout=lay, drift_integral=integral, dtypes={c: str(t0[c].dtype) for c in t0.columns},
+                            x=t0['x'].tolist()[:12], y=t0['y'].tolist()[:12], frame=t0['frame'].tolist()[:12]))
+        first = False
+
+
+# =============================================================================
 def run(chk):
     common.quiet_trackpy()
     if not build(chk):
@@ -783,6 +962,7 @@ def run(chk):
     run_filter_corpus(chk)
     run_filters(chk, 400 if chk.tier == 'quick' else 5000)
     run_compose(chk)
+    run_dtypes(chk)
     chk.coverage['rule'] = (
         "(a) random trajectory tables (1-7 trajectories with odd labels, 1-8 observations, sizes multiples of 1/4, rows by frame / shuffled / "
         "by particle, 17 index layouts incl. clashing 'frame'/'particle' names, MultiIndex, duplicates) plus a malformed stream (empty, single row, "
@@ -790,7 +970,15 @@ def run(chk):
         "above and below actual observation counts), filter_clusters(threshold at exact trajectory means and elsewhere) and filter_clusters(quantile); "
         "non-trivial = at least two trajectories and some but not all rows kept.  (b) every pipeline of the 5 producers up to the exhaustive depth "
         "(coverage.exhaustive_depth) plus sampled deeper ones, from each base table, then all 12 consumers; the same from 17 odd start layouts and "
-        "4 column-deficient tables at depth <= 1; non-trivial = the consumer received a table whose index is not the plain unnamed one.  distinct by content hash")
+        "4 column-deficient tables at depth <= 1; non-trivial = the consumer received a table whose index is not the plain unnamed one.  (c) walkers on the integer pixel grid "
+        "(random integer steps, so the per-frame mean displacement is generally non-integral; one table per run moves rigidly, drift integral in every frame) "
+        "stored with integer-typed measurement columns -- x,y int64 always, plus int32 / mixed 32 and 64 bit / one coordinate integer and one float / integer size and mass "
+        "(2 of 6 sampled in the quick tier, all in thorough) -- under index layouts default / shuffled / frame_index / duplicate / string labels; "
+        "every pipeline of the 5 producers + subtract_drift(t, given non-integral drift) up to depth 1 (quick: + link->subtract_drift and sampled depth 2; thorough: "
+        "all depth 2 + sampled depth 3), each stage and then all 12 consumers + subtract_drift(t, drift) run in lock-step on the table and on its float64 twin "
+        "(same values, same index): same accept/raise outcome and same numbers required, filters additionally keep values and dtypes; "
+        "non-trivial = the start table has an integer-typed measurement column (tallies 'dtype ...' give variants, layouts, integral / non-integral drift, "
+        "dtypes after each pipeline).  distinct by content hash")
     chk.coverage['exhaustive'] = True
     chk.assumptions += [
         "Gen/filtering.v is produced from the current trackpy/filtering.py and trackpy/utils.py (pandas_sort, guess_pos_columns) by "
@@ -805,6 +993,10 @@ def run(chk):
         "C20_same_numbers is about the index data-flow with the numeric kernels abstract; that msd/imsd/emsd/cluster/proximity/relate_frames never read the index is covered by the correspondence (numbers compared with the same data default-indexed), not by a theorem",
         "link/link_partial labels are compared as partitions (tie-breaking by object address is not deterministic)",
         "a consumer that fails identically on the default-indexed data (empty table after a filter that removes everything) is counted, not reported",
+        "part (c): frame and particle columns are int64 and positions signed integers within the dtype's range; unsigned position columns (compute_drift's "
+        "diff wraps around), 8/16-bit integer positions (pandas' diff then computes the drift in float32, so the numbers agree with the float64 table only "
+        "to float32 precision), narrower frame / particle dtypes and pandas nullable dtypes are outside the generated family; integer and float64 tables are "
+        "compared for equal values (all intermediate sums of the small integers used are exact in both)",
     ]
 
 
@@ -858,5 +1050,12 @@ def replay(chk, path):
         for code, c in zip(res, cases):
             if code != 0:
                 chk.violation('compose:%s:model-mismatch' % ('->'.join(r['pipeline']) or 'start'), 'layout model mismatch code %d' % code, c)
+    elif kind == 'dtype':
+        t0 = table_from_json(r['table'])
+        cons = [r['consumer']] if r.get('consumer') else []
+        dtype_explore(chk, r.get('table_name', 'replay'), t0, [tuple(r['pipeline'])], cons, r.get('meta'))
+        if not cons:
+            chk.count(('replay', r['table'], tuple(r['pipeline'])), True)
+        print('replay: dtypes %s, pipeline %s, consumer %s: %d violation(s)' % (r['table']['dtypes'], r['pipeline'], r.get('consumer'), len(chk.violations)))
     else:
         print('replay: nothing executable in this replay file (proof/correspondence breakage): see its log field')
